@@ -305,6 +305,14 @@ func (e *kvElection) attemptAcquireWithRetry(ctx context.Context) {
 }
 
 func (e *kvElection) attemptAcquire() error {
+	// A leader has nothing to acquire. If its record is gone the heartbeat
+	// notices, demotes it (running OnDemote) and a regular election follows;
+	// winning the key again here would start a second term with no demotion
+	// in between.
+	if e.IsLeader() {
+		return nil
+	}
+
 	token := uuid.New().String()
 
 	payload := leadershipPayload{
@@ -376,6 +384,14 @@ func (e *kvElection) becomeLeader(token string, rev uint64) {
 	// Stop is final: an acquisition that completes after the election was
 	// stopped must not claim leadership.
 	if fromState == StateStopped || e.ctx == nil {
+		return
+	}
+
+	// The check in attemptAcquire is not under the mutex: a round that passed
+	// it just before another round of this instance was promoted must not
+	// start a second term on top of the first. The record it wrote is not
+	// refreshed and expires.
+	if e.isLeader.Load() {
 		return
 	}
 
